@@ -187,6 +187,8 @@ class Reduction(ArrayExpr):
             token=name,
             dtype=dtype,
             adjust_chunks=adjust_chunks,
+            # x and the weights are on one grid by construction (see ``reduction``)
+            align_arrays=False,
         )
 
         # Compute reduced_meta for PartialReduce
@@ -403,6 +405,12 @@ def reduction(
             wgt = broadcast_to(wgt, x.shape)
         except ValueError:
             raise ValueError(f"Weights with shape {wgt.shape} are not broadcastable to x with shape {x.shape}")
+        # The reduction advertises x's block structure (``Reduction.chunks``) and
+        # its lowering pairs x's blocks with the weights' blocks, so the weights
+        # must arrive on x's grid; otherwise the lowering would unify the two
+        # layouts and produce another grid than the one advertised.
+        if wgt.chunks != x.chunks:
+            wgt = wgt.rechunk(x.chunks)
         weights_expr = wgt.expr
 
     # Create the Reduction expression
